@@ -11,7 +11,7 @@ import (
 	"fmt"
 	"go/ast"
 	"go/constant"
-	"regexp"
+	"path/filepath"
 	"strings"
 )
 
@@ -38,6 +38,18 @@ func c11patByteConv(e ast.Expr, en env) (string, bool) {
 		return "", false
 	}
 	return constant.StringVal(v), true
+}
+
+// c11patPkg parses the non-test files of internal/util/enc (helper lookup for computedBytes)
+func c11patPkg() []*ast.File {
+	var fs []*ast.File
+	names, _ := filepath.Glob(filepath.Join(repo, "internal/util/enc", "*.go"))
+	for _, n := range names {
+		if !strings.HasSuffix(n, "_test.go") {
+			fs = append(fs, parse("internal/util/enc/"+filepath.Base(n)))
+		}
+	}
+	return fs
 }
 
 func init() {
@@ -76,30 +88,16 @@ func init() {
 				}
 				// the computed pattern: str := make([]byte, N); for k := range str { b := byte(k + M); if-chain; else str[k] = b }
 				id, ok := el.(*ast.Ident)
-				src := c11src(fd)
 				if !ok {
 					fail("C11Pat: %s.TestPatterns: element is neither []byte(const) nor a variable", f[1])
 					continue
 				}
-				mk := regexp.MustCompile(regexp.QuoteMeta(id.Name) + ` := make\(\[\]byte, (\d+)\)`).FindStringSubmatch(src)
-				rg := regexp.MustCompile(`for k := range ` + regexp.QuoteMeta(id.Name) + ` \{\s*b := byte\(k \+ (\d+)\)`).FindStringSubmatch(src)
-				el2 := regexp.MustCompile(`\} else \{\s*` + regexp.QuoteMeta(id.Name) + `\[k\] = b\s*\}`).MatchString(src)
-				if mk == nil || rg == nil || !el2 || strings.Count(src, id.Name+"[k] =") != 4 {
-					fail("C11Pat: %s.TestPatterns: computed pattern no longer has the shape make/range/byte(k+M)/substitution chain", f[1])
+				// evaluated, not pattern-matched (x_c08.go computedBytes): the loop may use an if/else chain, a
+				// switch or a same-package helper for the substitution
+				buf, why := computedBytes(c11patPkg(), fd, id.Name)
+				if buf == nil {
+					fail("C11Pat: %s.TestPatterns: computed pattern %s not evaluable: %s", f[1], id.Name, why)
 					continue
-				}
-				pairs := substPairs(fd, f[1]+".TestPatterns")
-				n, m := c11Atoi(mk[1]), c11Atoi(rg[1])
-				buf := make([]byte, n)
-				for k := 0; k < n; k++ {
-					c := byte(k + m)
-					for _, p := range pairs {
-						if int64(c) == p[0] {
-							c = byte(p[1])
-							break
-						}
-					}
-					buf[k] = c
 				}
 				pats = append(pats, string(buf))
 			}
